@@ -178,3 +178,43 @@ Definition pcase_meets_spec (p : pcase) : bool :=
   forallb (fun n => Bool.eqb (str_in n (pc_result p))
                              (str_in n (pc_plus p) || (str_in n (pc_base p) && negb (str_in n (pc_minus p)))))
           (pc_names p).
+
+(* ---------------------------------------------------------------------------------------------- *)
+(* the configuration pipeline: capabilities of the configuration handed to evaluation (GetConfig of *)
+(* the fully configured linter) vs Model/Notices.v get_config                                      *)
+Fixpoint strs_eqb (a b : list str) : bool :=
+  match a, b with
+  | [], [] => true
+  | x :: a', y :: b' => str_eqb x y && strs_eqb a' b'
+  | _, _ => false
+  end.
+
+Definition caps_eqb (a b : caps) : bool :=
+  strs_eqb (cap_builtins a) (cap_builtins b)
+  && strs_eqb (cap_future_keywords a) (cap_future_keywords b)
+  && strs_eqb (cap_features a) (cap_features b).
+
+Record pipe_case := mkPipe {
+  pp_user : nat;            (* 0: no WithUserConfig; 1: a configuration without capabilities; 2: with capabilities *)
+  pp_user_caps : caps;      (* capabilities of the user configuration as loaded (pp_user = 2)                      *)
+  pp_this : caps;           (* config.CapabilitiesForThisVersion()                                               *)
+  pp_custom : nat;          (* custom rule modules loaded                                                         *)
+  pp_eval : caps }.         (* capabilities of GetConfig() of the configured linter = data.internal.combined_config *)
+
+Definition pipe_opts (p : pipe_case) : lopts unit unit unit :=
+  mkOpts unit unit unit
+    (match pp_user p with
+     | O => None
+     | S O => Some (mkUC unit unit tt tt None)
+     | _ => Some (mkUC unit unit tt tt (Some (pp_user_caps p)))
+     end)
+    (repeat ([], []) (pp_custom p)) tt.
+
+Definition pipeline_agrees (p : pipe_case) : bool :=
+  caps_eqb (pp_eval p)
+    (rego_capabilities unit unit unit
+       (data_bundle unit unit unit (pp_this p) tt tt (fun _ _ => tt) (fun _ _ => tt) (fun r _ => r) (pipe_opts p))).
+
+(* the statement itself on the observation: evaluation sees the configured target *)
+Definition pipeline_meets_spec (p : pipe_case) : bool :=
+  caps_eqb (pp_eval p) (match pp_user p with S (S _) => pp_user_caps p | _ => pp_this p end).
